@@ -193,8 +193,9 @@ class HexRunner:
     observe(runner, target, trie) is called after every operation (target = "0" or "b"); it
     emits whatever observations the property compares and runs its oracle."""
 
-    def __init__(self, res, prune, observe=None, db=None):
+    def __init__(self, res, prune, observe=None, db=None, raw_tie=False):
         self.res = res
+        self.raw_tie = raw_tie
         self.db = {} if db is None else db
         self.trie = HexaryTrie(self.db, prune=prune)
         self.prune = prune
@@ -203,7 +204,7 @@ class HexRunner:
         res.emit("hx.reset", "ok")
         res.emit("hx.new %d" % (1 if prune else 0), "0")
 
-    def call(self, line, fn):
+    def call(self, line, fn, raw=None):
         try:
             fn()
             out = "ok"
@@ -211,6 +212,14 @@ class HexRunner:
             raise
         except Exception as e:  # noqa
             out = fmt_exc(e)
+        if raw is not None and out == "ok":
+            # raw-level model (statement-by-statement transcription of _set/_delete over raw nodes) on the
+            # database as it was before the call: new root and the entries the call added
+            before, root_before, k, v = raw
+            added = sorted((a.hex(), b.hex()) for a, b in self.db.items() if a not in before)
+            self.res.emit("hx.rawop %s %s %s" % (hx(root_before), hx(k), "none" if v is None else hx(v)),
+                          "root=%s added=%s" % (hx(self.trie.root_hash), ",".join("%s:%s" % ab for ab in added) if added else "-"))
+            self.res.tags.add("raw-level-tied")
         self.res.emit(line, out)
         return out
 
@@ -218,21 +227,33 @@ class HexRunner:
         kind = op[0]
         k = bytes.fromhex(op[1])
         self.res.tags.add("op:" + kind)
+        raw_before = None
+        if self.raw_tie and tg == "0" and not self.prune:
+            raw_before = (dict(self.db), trie.root_hash)
+        out = self._simple(tg, trie, model, op, kind, k, raw_before)
+        return out
+
+    def _simple(self, tg, trie, model, op, kind, k, raw_before):
         if kind == "set":
             v = bytes.fromhex(op[2])
-            out = self.call("hx.set %s %s %s" % (tg, hx(k), hx(v)), lambda: trie.set(k, v))
+            raw = raw_before and raw_before + (k, v)
+            out = self.call("hx.set %s %s %s" % (tg, hx(k), hx(v)), lambda: trie.set(k, v), raw)
         elif kind == "setitem":
             v = bytes.fromhex(op[2])
-            out = self.call("hx.set %s %s %s" % (tg, hx(k), hx(v)), lambda: trie.__setitem__(k, v))
+            raw = raw_before and raw_before + (k, v)
+            out = self.call("hx.set %s %s %s" % (tg, hx(k), hx(v)), lambda: trie.__setitem__(k, v), raw)
         elif kind == "sete":
             v = b""
-            out = self.call("hx.set %s %s -" % (tg, hx(k)), lambda: trie.set(k, b""))
+            raw = raw_before and raw_before + (k, b"")
+            out = self.call("hx.set %s %s -" % (tg, hx(k)), lambda: trie.set(k, b""), raw)
         elif kind == "del":
             v = b""
-            out = self.call("hx.del %s %s" % (tg, hx(k)), lambda: trie.delete(k))
+            raw = raw_before and raw_before + (k, None)
+            out = self.call("hx.del %s %s" % (tg, hx(k)), lambda: trie.delete(k), raw)
         elif kind == "delitem":
             v = b""
-            out = self.call("hx.del %s %s" % (tg, hx(k)), lambda: trie.__delitem__(k))
+            raw = raw_before and raw_before + (k, None)
+            out = self.call("hx.del %s %s" % (tg, hx(k)), lambda: trie.__delitem__(k), raw)
         else:
             raise ValueError(op)
         if out == "ok":
